@@ -1,6 +1,8 @@
 package rules
 
 import (
+	"go/types"
+	"go/token"
 	"fmt"
 
 	"golang.org/x/tools/go/ssa"
@@ -90,6 +92,32 @@ func runC36(c *core.Ctx) {
 		}
 	}
 	c.Floor("C36/helper-leaves-amount-untouched", 8)
+	// the exact helper stays in integer arithmetic: the amount is never turned into a float (a float64
+	// holds the amount exactly below 2^53, but not the percentage: the truncated product is off by one)
+	if fn := anchorF(c, "core", "GetIntTrimmedPercentageOfValue"); fn != nil {
+		bad := ""
+		core.Instrs(fn, func(in ssa.Instruction) {
+			switch x := in.(type) {
+			case *ssa.Convert:
+				bt, ok := x.Type().Underlying().(*types.Basic)
+				bs, ok2 := x.X.Type().Underlying().(*types.Basic)
+				if ok && ok2 && bt.Info()&types.IsFloat != 0 && bs.Info()&types.IsInteger != 0 {
+					for y := range core.BackwardReachPure(x.X) {
+						if y == ssa.Value(fn.Params[0]) {
+							bad = "the amount is converted to " + bt.Name() + " at " + c.P.Pos(x.Pos())
+						}
+					}
+				}
+			case *ssa.BinOp:
+				if bt, ok := x.Type().Underlying().(*types.Basic); ok && bt.Info()&types.IsFloat != 0 && (x.Op == token.MUL || x.Op == token.QUO) {
+					bad = "floating-point " + x.Op.String() + " at " + c.P.Pos(x.Pos())
+				}
+			}
+		})
+		c.Check(bad == "", "C36/exact-helper-stays-in-integers", "GetIntTrimmedPercentageOfValue", fn.Pos(),
+			"no conversion of the amount to a float and no floating-point multiplication or division",
+			bad+": the result is no longer the amount times the decimal expansion of p rounded down (the binary float nearest to p is not p)")
+	}
 
 	if fn := anchorM(c, "vm/systemSmartContracts", "delegation", "computeAndUpdateRewards"); fn != nil {
 		c.Analysed(fname(fn))
@@ -101,42 +129,71 @@ func runC36(c *core.Ctx) {
 				}
 			}
 		})
-		// the Sub that computes the complement
-		okSub, why := false, "no Sub(total, ownerShare) found"
-		core.Instrs(fn, func(in ssa.Instruction) {
-			call, ok := in.(*ssa.Call)
-			if !ok || call.Call.StaticCallee() == nil || call.Call.StaticCallee().Name() != "Sub" || call.Call.StaticCallee().Pkg == nil || call.Call.StaticCallee().Pkg.Pkg.Path() != "math/big" || len(call.Call.Args) != 3 {
-				return
+		// the delegators' share: the object that is scaled by stake / TotalActive. On EVERY path it must be
+		// the fresh difference Sub(total, ownerShare) of the total the owner's percentage was taken from.
+		okSub, why := false, "no share scaled by the delegator's stake over TotalActive was found"
+		isBig := func(call *ssa.Call, name string) bool {
+			g := call.Call.StaticCallee()
+			return g != nil && g.Pkg != nil && g.Pkg.Pkg.Path() == "math/big" && g.Name() == name
+		}
+		var checkOrigin func(v ssa.Value, depth int) (bool, string)
+		checkOrigin = func(v ssa.Value, depth int) (bool, string) {
+			if depth > 8 {
+				return false, "the origin of the delegators' share could not be followed"
 			}
-			sub := call.Call.Args[2]
-			fromOwner := false
-			for x := range core.BackwardReachPure(sub) {
-				for _, o := range owner {
-					if x == ssa.Value(o) {
-						fromOwner = true
+			switch x := v.(type) {
+			case *ssa.Phi:
+				for _, e := range x.Edges {
+					if ok, w := checkOrigin(e, depth+1); !ok {
+						return false, w
 					}
 				}
+				return len(x.Edges) > 0, ""
+			case *ssa.Call:
+				if isBig(x, "Mul") || isBig(x, "Div") || isBig(x, "Quo") || isBig(x, "Set") {
+					return checkOrigin(x.Call.Args[0], depth+1)
+				}
+				if isBig(x, "Sub") && len(x.Call.Args) == 3 {
+					fromOwner := false
+					for y := range core.BackwardReachPure(x.Call.Args[2]) {
+						for _, o := range owner {
+							if y == ssa.Value(o) {
+								fromOwner = true
+							}
+						}
+					}
+					if !fromOwner {
+						return false, "the share is a difference, but not total minus the owner's share"
+					}
+					for _, o := range owner {
+						if core.ExprKey(o.Call.Args[0]) != core.ExprKey(x.Call.Args[1]) {
+							return false, "the complement is subtracted from a different amount than the one the owner's percentage was taken from"
+						}
+					}
+					if !freshBig(x.Call.Args[0]) {
+						return false, "the difference overwrites a stored amount instead of a fresh object"
+					}
+					return true, ""
+				}
+				return false, "on some path the delegators' share is not Sub(total, ownerShare) but " + core.ExprKey(x) + " (a second, independently rounded percentage does not add up with the first)"
 			}
-			if !fromOwner {
+			return false, "on some path the delegators' share is not Sub(total, ownerShare)"
+		}
+		core.Instrs(fn, func(in ssa.Instruction) {
+			call, ok := in.(*ssa.Call)
+			if !ok || !(isBig(call, "Div") || isBig(call, "Quo")) || len(call.Call.Args) != 3 {
 				return
 			}
-			// minuend: the same total the percentages were taken from
-			same := len(owner) > 0
-			for _, o := range owner {
-				if core.ExprKey(o.Call.Args[0]) != core.ExprKey(call.Call.Args[1]) {
-					same = false
+			byTotalActive := false
+			for x := range core.BackwardReachPure(call.Call.Args[2]) {
+				if _, f := core.FieldLoad(x); f != nil && f.Name() == "TotalActive" {
+					byTotalActive = true
 				}
 			}
-			if !same {
-				why = "the complement is subtracted from a different amount than the one the owner's percentage was taken from"
+			if !byTotalActive {
 				return
 			}
-			if !freshBig(call.Call.Args[0]) {
-				why = "the difference overwrites a stored amount instead of a fresh object"
-				return
-			}
-			// every later in-place scaling of the delegators' share works on that fresh difference
-			okSub = true
+			okSub, why = checkOrigin(call.Call.Args[0], 0)
 		})
 		c.Check(okSub && len(owner) >= 1, "C36/complement-by-subtraction", "delegation.computeAndUpdateRewards", fn.Pos(),
 			"delegators' share = Sub(fresh, total, ownerShare) of the same total the owner's percentage was taken from",
